@@ -455,3 +455,124 @@ def r_allocform(db, rep):
                 rep.viol("%s::%s#%s-vs-%s" % (key[0], key[1], "+".join(sorted(forms)), form), f.nloc(n),
                          "%s releases %s::%s with %s, but the field is allocated with %s: undefined behaviour" % (
                              f.qn, key[0], key[1], form, ", ".join(sorted(forms))), f.qn)
+
+
+def _byte_valued(f, x, seen=None):
+    """The expression's value is a byte (0..255) whatever the run-time data: an 8-bit unsigned expression under implicit
+    promotions, or a local every one of whose definitions is byte-valued."""
+    seen = seen or set()
+    while x["k"] in TRANSPARENT:
+        cs = children(x)
+        if len(cs) != 1:
+            break
+        x = cs[0]
+    t = f.type(x)
+    if t and t.get("bits") == 8 and t["kind"] == "uint":
+        return True
+    if x["k"] == "DeclRefExpr" and x.get("dk") == "local" and x["d"] not in seen:
+        defs = []
+        for n in f.live_nodes():
+            if n["k"] == "DeclStmt":
+                for v in n["decls"]:
+                    if v.get("d") == x["d"]:
+                        if v.get("init") is None:
+                            continue
+                        defs.append(v["init"])
+            elif is_assignment(n):
+                l = strip(n["lhs"])
+                if l["k"] == "DeclRefExpr" and l.get("d") == x["d"] and l.get("dk") == "local":
+                    if n.get("op") != "=":
+                        return False
+                    defs.append(n["rhs"])
+            elif n["k"] == "UnaryOperator" and n["op"] in ("++", "--", "&"):
+                l = strip(n["sub"])
+                if l["k"] == "DeclRefExpr" and l.get("d") == x["d"] and l.get("dk") == "local":
+                    return False
+        return bool(defs) and all(_byte_valued(f, d, seen | {x["d"]}) for d in defs)
+    return False
+
+
+@rule("R-BYTEINDEX", 5, "a table that a query indexes with an arbitrary byte of the pattern / of decoded data has at least 256 entries on every "
+                        "path that creates it (in-object extent, new T[N], loadValue<T>(in, N) with constant N >= 256)")
+def r_byteindex(db, rep):
+    sites = {}
+    for f in db.funcs.values():
+        if not f.body or f.file.startswith("libcds/"):
+            continue
+        for n in f.live_nodes():
+            if n["k"] != "ArraySubscriptExpr":
+                continue
+            bp = access_path(f, n["base"])
+            if not bp or bp[0] != "this" or len(bp) != 2:
+                continue
+            if not _byte_valued(f, n["idx"]):
+                continue
+            # an access under a test of ANOTHER byte-indexed table at the same index is that table's business (occ[] under alphabet[])
+            sites.setdefault((f.rec, bp[1]), []).append((f, n))
+    for (rec, fld), accs in sorted(sites.items(), key=str):
+        fd = db.field(rec, fld) if rec else None
+        if fd is None:
+            continue
+        owner = fd[0] if isinstance(fd[0], str) else rec
+        extent = fd[1].get("extent")
+        f0, n0 = accs[0]
+        # a table some access of which sits under a test of ANOTHER byte-indexed table at the same index (occ[c] under alphabet[c])
+        # is a guarded table: its obligations are R-ALPHAGUARD's, its extent is the guard's business
+        guarded = False
+        for f, n in accs:
+            ip = access_path(f, n["idx"])
+            if ip is None or f.cfg is None:
+                continue
+            for c, pol in f.cfg.guards(n):
+                if c is None:
+                    continue
+                for x in walk(c):
+                    if x["k"] == "ArraySubscriptExpr" and access_path(f, x["idx"]) == ip:
+                        bp2 = access_path(f, x["base"])
+                        if bp2 and bp2[0] == "this" and bp2[-1] != fld:
+                            guarded = True
+        if guarded:
+            rep.notes.append("%s::%s is a guarded table (accesses under a test of another byte-indexed table): left to R-ALPHAGUARD" % (rec, fld))
+            continue
+        rep.visit(f0)
+        rep.inst(f0.nloc(n0), "%s::%s is indexed by a byte value at %d site(s), e.g. in %s" % (rec, fld, len(accs), f0.qn))
+        if extent is not None:
+            rep.ob()
+            if extent < 256:
+                rep.viol("%s::%s#extent" % (rec, fld), f0.nloc(n0), "%s::%s has %d entries but is indexed by an arbitrary byte in %s" % (rec, fld, extent, f0.qn), f0.qn)
+            continue
+        # every allocation of the field, in any function
+        allocs = []
+        for g in db.funcs.values():
+            if not g.body:
+                continue
+            for lv, w in written_lvalues(g):
+                s = strip(lv)
+                if s["k"] != "MemberExpr" or s.get("n") != fld or w.get("op") != "=" or w.get("rhs") is None:
+                    continue
+                if s.get("rec") not in (None, rec) and not (s.get("rec") and (db.is_subclass(rec, s["rec"]) or db.is_subclass(s["rec"], rec))):
+                    continue
+                r = strip(w["rhs"])
+                if const_value(r) == 0:
+                    continue
+                size = None
+                how = None
+                if r["k"] == "CXXNewExpr" and r.get("size") is not None:
+                    size, how = const_value(r["size"]), "new[]"
+                elif r["k"] == "CallExpr" and callee_name(r) == "loadValue" and len(r.get("args", [])) == 2:
+                    size, how = const_value(r["args"][1]), "loadValue"
+                else:
+                    how = "copied"
+                allocs.append((g, w, size, how))
+        if not allocs:
+            rep.notes.append("%s::%s: no allocation found (undecided)" % (rec, fld))
+            continue
+        for g, w, size, how in allocs:
+            rep.ob()
+            if how == "copied":
+                rep.notes.append("%s::%s assigned from another pointer at %s (extent not followed)" % (rec, fld, g.nloc(w)))
+                continue
+            if size is None or size < 256:
+                rep.viol("%s::%s#extent-in-%s" % (rec, fld, g.qn), g.nloc(w),
+                         "%s creates %s::%s with %s entries, but %s indexes it with an arbitrary byte value (%s): bytes beyond the extent read "
+                         "outside the allocation" % (g.qn, rec, fld, "a run-time number of" if size is None else size, f0.qn, f0.nloc(n0)), g.qn)
